@@ -37,7 +37,7 @@ def mutate(raw, rng):
         chunks = iffparse.parse(raw)
     except iffparse.Malformed:
         return None
-    kind = rng.choice(("cval", "cval", "cval", "chdt", "slnk", "slnk-free-last", "pdta", "cmid-param"))
+    kind = rng.choice(("cval", "cval", "cval", "chdt", "slnk", "slnk-free-last", "slnk2", "pdta", "cmid-param"))
     out = [[c[0], c[1]] for c in chunks]
     if kind == "cval":
         idx = [i for i, c in enumerate(out) if c[0] == b"CVAL"]
@@ -61,6 +61,16 @@ def mutate(raw, rng):
         n = len(out[i][1]) // 4
         vals = list(struct.unpack("<" + "i" * n, out[i][1]))
         vals[rng.randrange(n)] = rng.randint(-1, max(0, nmods - 1))
+        out[i][1] = struct.pack("<" + "i" * n, *vals)
+    elif kind == "slnk2":
+        # the explicit slot chunk: an entry set to another small slot number or freed
+        idx = [i for i, c in enumerate(out) if c[0] == b"SLnK" and len(c[1]) >= 4]
+        if not idx:
+            return None
+        i = rng.choice(idx)
+        n = len(out[i][1]) // 4
+        vals = list(struct.unpack("<" + "i" * n, out[i][1]))
+        vals[rng.randrange(n)] = rng.choice([-1, 0, 0, 1, 2, 3])
         out[i][1] = struct.pack("<" + "i" * n, *vals)
     elif kind == "slnk-free-last":
         # free the last incoming link of a module whose explicit slot chunk follows (stale slot left behind)
